@@ -15,6 +15,28 @@ def _is_atom(o):
     return isinstance(o, _ATOM)
 
 
+def attrs(o):
+    """Instance attributes of o in a stable order: __dict__ (insertion order) plus every slot of every class in
+    its MRO (a slotted hierarchy has no __dict__, and __slots__ of one class lists only that class's own slots).
+    Returns None for objects with neither."""
+    d = getattr(o, "__dict__", None)
+    out = dict(d) if isinstance(d, dict) else {}
+    found = d is not None
+    for cls in reversed(type(o).__mro__):
+        sl = cls.__dict__.get("__slots__")
+        if sl is None:
+            continue
+        found = True
+        for name in ((sl,) if isinstance(sl, str) else sl):
+            if name in ("__dict__", "__weakref__") or name in out:
+                continue
+            try:
+                out[name] = object.__getattribute__(o, name)
+            except AttributeError:
+                pass
+    return out if found else None
+
+
 def fingerprint(obj, topology=True):
     memo = {}
     keep = []  # keep temporaries alive so ids are not recycled during the walk
@@ -53,19 +75,12 @@ def fingerprint(obj, topology=True):
             )
         if callable(o) and not hasattr(o, "__dict__"):
             return ("callable", getattr(o, "__qualname__", repr(type(o))))
-        d = getattr(o, "__dict__", None)
+        d = attrs(o)
         if d is not None:
             return (
                 "obj",
                 type(o).__module__ + "." + type(o).__qualname__,
                 tuple((k, walk(v, depth + 1)) for k, v in d.items()),
-            )
-        slots = getattr(type(o), "__slots__", None)
-        if slots:
-            return (
-                "obj",
-                type(o).__qualname__,
-                tuple((s, walk(getattr(o, s, None), depth + 1)) for s in slots),
             )
         return ("opaque", type(o).__qualname__)
 
@@ -120,9 +135,9 @@ def mutable_ids(obj, skip_exceptions=True):
             for x in sorted(o, key=repr):
                 walk(x, f"{path}{{{x!r}}}", depth + 1)
             return
-        if callable(o) and not dataclasses.is_dataclass(o) and not hasattr(o, "__dict__"):
+        if callable(o) and not dataclasses.is_dataclass(o) and attrs(o) is None:
             return
-        d = getattr(o, "__dict__", None)
+        d = attrs(o)
         if d is not None:
             if callable(o) and not dataclasses.is_dataclass(o):
                 return  # functions / bound methods
